@@ -91,6 +91,14 @@ func (r *c12render) val(v ssa.Value) string {
 		if b, ok := x.Call.Value.(*ssa.Builtin); ok && b.Name() == "len" {
 			return "len(" + r.val(x.Call.Args[0]) + ")"
 		}
+		// slices.Contains(cred.AuxGIDs, attrs.Gid): the library's membership test
+		if strings.HasPrefix(shortCallee(x), "slices.Contains") && len(x.Call.Args) == 2 {
+			a0, a1 := r.val(x.Call.Args[0]), r.val(x.Call.Args[1])
+			if strings.HasSuffix(a0, "auxgids") && a1 == "group" {
+				return "memberof"
+			}
+			return "contains(" + a0 + "," + a1 + ")"
+		}
 	}
 	return "?" + v.Name()
 }
@@ -145,6 +153,25 @@ func (r *c12render) flatten(v ssa.Value, conds []string, seen map[*ssa.Phi]bool,
 				}
 			}
 			sets = next
+		}
+		// "not a member" can be established on several edges (no credential at all, or the library's
+		// membership test failed): a disjunction no single fact carries.  It holds here if every path to this
+		// edge crosses one of those edges.
+		if notMember := guardedBy(r.fn, pred, func(f condFact) bool {
+			s := r.cond(f)
+			return s == "!memberof" || strings.HasSuffix(s, "cred==nil")
+		}); notMember {
+			for i, cs := range sets {
+				has := false
+				for _, s := range cs {
+					if strings.HasSuffix(s, "memberof") {
+						has = true
+					}
+				}
+				if !has && keep("!memberof") {
+					sets[i] = append(cs, "!memberof")
+				}
+			}
 		}
 		for _, cs := range sets {
 			out = append(out, r.flatten(e, cs, seen, keep)...)
@@ -359,17 +386,24 @@ func runC12(c *Ctx) {
 	}
 	// --- class alternatives
 	keep := func(s string) bool {
-		return strings.Contains(s, "euid") || strings.Contains(s, "egid") || strings.HasPrefix(s, "phi:") || strings.HasPrefix(s, "!phi:")
+		return strings.Contains(s, "euid") || strings.Contains(s, "egid") || strings.HasPrefix(s, "phi:") || strings.HasPrefix(s, "!phi:") || strings.HasSuffix(s, "memberof")
 	}
 	alts := r.flatten(classV, nil, map[*ssa.Phi]bool{}, keep)
 	// membership phi: the phi used as boolean condition
 	var memberPhi string
+	memberByLibrary := false
 	for _, a := range alts {
 		for _, s := range a.Conds {
 			if strings.HasPrefix(s, "phi:") {
 				memberPhi = s
 			}
+			if strings.HasSuffix(s, "memberof") {
+				memberByLibrary = true
+			}
 		}
+	}
+	if memberPhi == "" && memberByLibrary {
+		memberPhi = "memberof"
 	}
 	var got []string
 	gotPos := map[string]bool{}
@@ -406,7 +440,9 @@ func runC12(c *Ctx) {
 		}
 	}
 	// --- member
-	if memberPhi == "" {
+	if memberPhi == "memberof" {
+		c.ok(P, "member", "value", p.pos(h.Pos()), "membership is slices.Contains(credential's AuxGIDs, object's group)")
+	} else if memberPhi == "" {
 		c.bad(P, "member", "value", p.pos(h.Pos()), "no auxiliary-group membership value feeds the class selection")
 	} else {
 		var mphi *ssa.Phi
